@@ -651,7 +651,8 @@ def _make_eq(cls: t.Type[PaneBase], fields: t.Sequence[Field]):
 def _make_ord(cls: t.Type[PaneBase], fields: t.Sequence[Field]):
     #ord_fields = list(filter(lambda f: f.ord, fields))
     def _pane_ord(self: PaneBase, other: t.Any) -> t.Literal[-1, 0, 1]:
-        if self.__class__ != other.__class__:
+        # same class test as `__eq__`: modulo type variables
+        if self.__class__.__dict__.get('__origin__', self.__class__) != other.__class__.__dict__.get('__origin__', other.__class__):
             return NotImplemented  # type: ignore
         for f in fields:
             if not f.compare:
